@@ -413,8 +413,6 @@ class MatchSetter2:
 # ------------------------------------------------------------------------------------- catalogue of option sets
 AD1 = ["-a", "a1=ACGTACGT", "-a", "a2=TTTTGGGG"]
 AD2 = ["-A", "b1=GGCCGGCC", "-A", "b2=AAAACCCC"]
-SE_OUT = ["-o", "out.fq"]
-PE_OUT = ["-o", "out.1.fq", "-p", "out.2.fq"]
 
 
 class Spec:
@@ -539,20 +537,6 @@ class Spec:
 
     def mode(self):
         return self.pair_filter or "any"
-
-
-def combine(mode, on1, on2, a1, a2):
-    """Pair decision from the two per-read criteria (guide: any = at least one of the reads, both = both reads,
-    first = the first read only; a criterion given for one mate only looks at that mate only)."""
-    if not on2:
-        return a1
-    if not on1:
-        return a2
-    if mode == "any":
-        return a1 or a2
-    if mode == "both":
-        return a1 and a2
-    return a1
 
 
 _TABLES = {}
